@@ -90,6 +90,9 @@ pub struct AggSettings {
     /// `C16-dmq-dedup-ignores-sender`: the consumer then reads the DMQ node without the
     /// repository's deduplicating client
     pub dmq_dedup: bool,
+    /// the genesis verification key in the operator's configuration (None: the one the genesis
+    /// certificate of this world was signed with)
+    pub genesis_vk_hex: Option<String>,
 }
 
 /// The message-queue side of the aggregator: what the (simulated) DMQ node hands over when the
@@ -127,6 +130,8 @@ pub struct AggregatorNode {
     pub rt: tokio::runtime::Runtime,
     pub inner: Option<AggInner>,
     pub restarts: u64,
+    /// a cycle had to be helped by opening the artifact gate (see `tick`)
+    pub cycle_waited_for_artifact: bool,
 }
 
 pub fn logger() -> slog::Logger {
@@ -160,7 +165,7 @@ fn new_runtime() -> tokio::runtime::Runtime {
 impl AggregatorNode {
     pub fn new(dir: PathBuf, view: SharedView, settings: AggSettings) -> Self {
         std::fs::create_dir_all(&dir).expect("aggregator dir");
-        AggregatorNode { dir, view, settings, rt: new_runtime(), inner: None, restarts: 0 }
+        AggregatorNode { dir, view, settings, rt: new_runtime(), inner: None, restarts: 0, cycle_waited_for_artifact: false }
     }
 
     fn configuration(&self) -> ServeCommandConfiguration {
@@ -168,12 +173,14 @@ impl AggregatorNode {
         std::fs::create_dir_all(&stores).expect("stores dir");
         let snapshots = self.dir.join("snapshots");
         std::fs::create_dir_all(&snapshots).expect("snapshot dir");
+        let sample = ServeCommandConfiguration::new_sample(snapshots.clone());
         ServeCommandConfiguration {
             protocol_parameters: Some(self.settings.protocol_parameters.clone()),
             signed_entity_types: Some(
                 self.settings.entity_types.iter().map(|d| d.to_string()).collect::<Vec<_>>().join(","),
             ),
             data_stores_directory: stores,
+            genesis_verification_key: self.settings.genesis_vk_hex.clone().unwrap_or_else(|| sample.genesis_verification_key.clone()),
             // blocks 100, 120, ...: a beacon every 15 blocks, nothing held back from the tip
             cardano_transactions_signing_config: Some(mithril_common::entities::CardanoTransactionsSigningConfig {
                 security_parameter: mithril_common::entities::BlockNumberOffset(5),
@@ -195,6 +202,7 @@ impl AggregatorNode {
         let configuration = self.configuration();
         let view = self.view.clone();
         let dmq_dedup = self.settings.dmq_dedup;
+        let genesis_vk_hex = self.settings.genesis_vk_hex.clone();
         let inner = self.rt.block_on(async move {
             let snapshotter =
                 Arc::new(FakeSnapshotter::new(configuration.get_snapshot_dir()?.join("fake_snapshots")));
@@ -210,6 +218,12 @@ impl AggregatorNode {
             )]));
             b.era_reader = Some(Arc::new(EraReader::new(era_adapter)));
             b.block_scanner = Some(Arc::new(crate::chain::SimBlockScanner { view: view.clone() }));
+            // the execution environment of the simulated node is `Test` (no cloud uploaders), in
+            // which the builder ignores the configured genesis verification key: hand it over the
+            // way the `Production` branch of `build_genesis_verifier` would
+            if let Some(hex) = &genesis_vk_hex {
+                b.genesis_verifier = Some(Arc::new(mithril_common::crypto_helper::GenesisVerifier::try_from_hex(hex)?));
+            }
             let gate = Arc::new(GatedSignedEntityStorer {
                 inner: Arc::new(SignedEntityStore::new(b.get_sqlite_connection().await?)),
                 gate: tokio::sync::watch::channel(false).0,
@@ -267,14 +281,44 @@ impl AggregatorNode {
         // as in production, a freshly spawned artifact task starts computing right away (it reads
         // the epoch service now, not whenever this runtime next happens to yield); it then waits
         // at the signed-entity store's gate until a Background event lets it complete
+        // Deadlock detector: the clock of this runtime is paused and auto-advances to the next
+        // timer as soon as nothing is runnable (and no blocking-pool task is in flight); a timer
+        // a simulated decade away therefore fires exactly when the cycle waits for something that
+        // no timer will ever bring - in practice an artifact task held at the gate, if the code
+        // under test makes the cycle wait for it. The gate is then opened for the rest of the
+        // cycle (in production the task runs concurrently and completes); if the cycle is stuck
+        // again, it never returns: reported as such, the node has to be restarted.
+        let gate = inner.gate.clone();
+        let mut waited_for_artifact = false;
         let res = self.rt.block_on(async {
-            let res = inner.runtime.cycle().await;
+            let cycle = inner.runtime.cycle();
+            tokio::pin!(cycle);
+            let res = loop {
+                tokio::select! {
+                    biased;
+                    r = &mut cycle => break Some(r),
+                    _ = tokio::time::sleep(std::time::Duration::from_secs(10 * 365 * 86_400)) => {
+                        if waited_for_artifact {
+                            break None;
+                        }
+                        waited_for_artifact = true;
+                        let _ = gate.gate.send_replace(true);
+                    }
+                }
+            };
+            if waited_for_artifact {
+                let _ = gate.gate.send_replace(false);
+            }
             for _ in 0..4 {
                 tokio::task::yield_now().await;
             }
             res
         });
-        (inner.runtime.state_label().to_string(), res.err().map(|e| format!("{e:?}")))
+        self.cycle_waited_for_artifact |= waited_for_artifact;
+        match res {
+            Some(res) => (inner.runtime.state_label().to_string(), res.err().map(|e| format!("{e:?}"))),
+            None => ("hung".to_string(), Some("the cycle of the state machine does not return (deadlock: nothing runnable, no timer pending)".to_string())),
+        }
     }
 
     pub fn state_label(&self) -> String {
